@@ -267,6 +267,9 @@ EXTRA_TOKEN_LINES = [
 
 
 EXTRA_TOKEN_BLOCKS = [[ln] for ln in EXTRA_TOKEN_LINES] + [
+    # a literal TAB inside a string / a bracketed name is data, wherever the line is broken
+    [('', [(None, 'zz'), ('opt', '='), ('opt', 'arrayJoin'), ('opt', '('), ('opt', 'cells'), ('opt', ','), ('opt', "'\t'"), ('opt', ','), ('opt', '1'), ('opt', ')')])],
+    [('    ', [(None, 'zz'), ('opt', '='), ('opt', "'a\tb\t'"), ('opt', '+'), ('opt', '['), ('opt', 'col\tname]'), ('opt', '+'), ('opt', '"\t\t"')])],
     [('', [(None, 'if'), ('req', '['), ('opt', 'Unit Price]'), ('opt', '*'), ('opt', '['), ('opt', 'q\\]ty]'), ('opt', ':')]),
      ('    ', [(None, 'zz'), ('opt', '='), ('opt', '['), ('opt', 'Unit Price]')]), ('', [(None, 'endif')])],
     [('', [(None, 'while'), ('req', 'aa'), ('opt', '<'), ('opt', '['), ('opt', 'a.b c]'), ('opt', ':')]), ('    ', [(None, 'break')]), ('', [(None, 'endwhile')])],
